@@ -31,9 +31,10 @@ def Code.known : Code → Bool
   | .unk _ => false
   | _ => true
 
-/-- operators: `x+y x-y x*y x/y x**y` and the reflected `y.__radd__(x) y.__rsub__(x) y.__rmul__(x)` -/
+/-- operators: `x+y x-y x*y x/y x**y`, the reflected `y.__radd__(x) y.__rsub__(x) y.__rmul__(x)`, and `powD`:
+`D ** y` with a `Distribution` on the left (`Distribution.__pow__`, pba/distributions.py) -/
 inductive Op where
-  | add | sub | mul | div | pow | radd | rsub | rmul
+  | add | sub | mul | div | pow | radd | rsub | rmul | powD
   deriving DecidableEq, Repr
 
 inductive Branch where
@@ -100,6 +101,7 @@ def method (op : Op) (d : Code) : Except Err Call :=
   | .radd => (addDispatch d).map (Call.mk .add .y .x)
   | .rsub => (addDispatch d).map (Call.mk .add .negY .x)
   | .rmul => (mulDispatch d).map (Call.mk .mul .y .x)
+  | .powD => (powDispatch d).map (Call.mk .pow .x .y)      -- the explicit method behind `D ** y` is `pow`
 
 /-- events of one context -/
 inductive Ev where
@@ -152,7 +154,10 @@ def run (c : Ctx) : List Ev → Option Ctx
   | [] => some c
   | e :: es => (stepCtx c e).bind (fun c' => run c' es)
 
-/-- the operator is the method applied to the value read at call time -/
+/-- the operator is the method applied to the value read at call time.  Every operator of `Pbox`, `Distribution`
+(incl. `Distribution.__pow__` since 449c733; it passed the literal `"f"` before) and of the Dempster-Shafer mixin
+converts its operands to p-boxes and ends in the p-box method with `get_current_dependency()`, so the operand
+kinds do not appear here. -/
 def operator (op : Op) (c : Ctx) : Except Err Call := method op (get c)
 
 /-- what the harness records after an event: `get_current_dependency()`, and for `arith` the outcome -/
